@@ -267,12 +267,12 @@ impl Prop for C30 {
                     ("eintr_read", 80), ("eintr_write", 80), ("tcp_short_read", 150), ("tcp_short_write", 150), ("eintr_accept", 150),
                     ("eintr_poll", 150), ("eintr_udp_recv", 100), ("eintr_udp_send", 100), ("udp_loss", 100), ("udp_dup", 100),
                     ("udp_reorder", 200), ("udp_delay", 200), ("udp_send_error", 100), ("spurious_wakeup", 30), ("timeout_kind_timedout", 500),
-                    ("spawn_fail", 40),
+                    ("spawn_fail", 40), ("accept_error", 80), ("udp_recv_error", 30),
                 ]
             } else {
                 &[
                     ("tcp_short_read", 150), ("tcp_short_write", 150), ("spurious_pending", 100), ("udp_loss", 100), ("udp_dup", 100),
-                    ("udp_delay", 200), ("udp_send_error", 100),
+                    ("udp_delay", 200), ("udp_send_error", 100), ("accept_error", 80), ("udp_recv_error", 30),
                 ]
             };
             for (k, rate) in kinds {
@@ -830,7 +830,7 @@ fn run_blocking(scn: &Scn) {
         }
     }
     let log = simrt::net::take_udp_log();
-    let complete = des && !midrun && !has_fault(scn, "udp_send_error") && !spawn_fail;
+    let complete = des && !midrun && !has_fault(scn, "udp_send_error") && !has_fault(scn, "udp_recv_error") && !spawn_fail;
     if !crate::util::has_violation() {
         judge_udp(scn, &log, &reference_server, complete);
     }
